@@ -88,7 +88,7 @@ async fn run_storm(a: &Args, m: &mut mon::Mon) {
                     }
                 }
             }
-            if a.prop == "C16" && k % 500 == 200 {
+            if matches!(a.prop.as_str(), "C16" | "C02") && k % 500 == 200 {
                 // a liquidation by a fresh account of the liquidator's wallet: it takes positions on in
                 // banks it did not hold (two look-ups on one account inside one instruction)
                 w.refresh_oracles();
@@ -191,7 +191,7 @@ async fn run_scen(a: &Args, m: &mut mon::Mon) {
         let seed = subseed(a, world_no);
         let mut r = storm::rng(seed);
         let c04 = a.prop == "C04";
-        let cfg = storm::StormCfg { n_banks: if c04 { r.gen_range(5..=8) } else { r.gen_range(3..=5) }, n_users: 2, program_fees: r.gen_bool(0.6), magnitude: 1, with_staked: false, n_isolated: if c04 { 2 } else { 1 }, emode: c04 || r.gen_bool(0.3), n_venue: 0 };
+        let cfg = storm::StormCfg { n_banks: if c04 { r.gen_range(5..=8) } else { r.gen_range(3..=5) }, n_users: 2, program_fees: r.gen_bool(0.6), magnitude: 1, with_staked: c04 && r.gen_bool(0.4), n_isolated: if c04 { 2 } else { 1 }, emode: c04 || r.gen_bool(0.3), n_venue: 0 };
         let (mut w, mut s) = storm::Storm::build(seed, cfg).await;
         let g = s.g;
         let lq = s.liquidator;
@@ -214,10 +214,21 @@ async fn run_scen(a: &Args, m: &mut mon::Mon) {
             if dbs.is_empty() {
                 break;
             }
-            let db = storm::pick(&mut r, &dbs);
-            if a.prop == "C04" && r.gen_bool(0.7) {
-                scen::portfolio(&mut w, m, &mut r, g, lq).await;
-                continue;
+            let mut db = storm::pick(&mut r, &dbs);
+            let mut ca = ca;
+            if a.prop == "C04" {
+                // staked collateral (valued from the SOL price and the pool's redeemable stake) against
+                // a SOL-class debt
+                let staked: Vec<usize> = (0..nb).filter(|b| matches!(w.banks[*b].oracle, world::OracleD::Staked { .. }) && w.bank(*b).config.operational_state == marginfi_type_crate::types::BankOperationalState::Operational).collect();
+                let sol: Vec<usize> = (0..nb).filter(|b| w.bank(*b).config.asset_tag == 1 && w.bank(*b).config.operational_state == marginfi_type_crate::types::BankOperationalState::Operational).collect();
+                if !staked.is_empty() && !sol.is_empty() && r.gen_bool(0.35) {
+                    ca = storm::pick(&mut r, &staked);
+                    db = storm::pick(&mut r, &sol);
+                    m.r.count("scen.staked_collateral_rounds");
+                } else if r.gen_bool(0.7) {
+                    scen::portfolio(&mut w, m, &mut r, g, lq).await;
+                    continue;
+                }
             }
             let frac = storm::pick(&mut r, &[1.0f64, 0.999, 0.95, 0.7, 0.3]);
             let lev = match scen::setup_leveraged(&mut w, m, &mut r, g, lq, ca, db, frac).await {
